@@ -79,6 +79,11 @@ Theorem belief_mass_conservation : forall m, wf_pomdp1 m -> forall t a, (a < nA 
 Proof. exact mass_conservation. Qed.
 Print Assumptions belief_mass_conservation.
 
+Theorem EV_subadditive_thm : forall m n t1 t2, 0 <= gam (pm m) -> length t1 = nS (pm m) -> length t2 = nS (pm m) ->
+  EV m n (vadd t1 t2) <= EV m n t1 + EV m n t2.
+Proof. exact EV_subadditive. Qed.
+Print Assumptions EV_subadditive_thm.
+
 (* Non-vacuity: a concrete 2-state, 2-action, 2-observation POMDP meets every hypothesis. *)
 Definition ex_pomdp : pomdp :=
   {| pm := {| nS := 2; nA := 2;
